@@ -131,6 +131,18 @@ func main() {
 			os.RemoveAll(norm.dir)
 		}
 	}
+	if d, derr := readDecls(*verif); derr == nil && d != nil {
+		refStructFields, refTypes = map[string]map[string]bool{}, map[string]bool{}
+		for tn := range d.types {
+			refTypes[tn] = true
+		}
+		for tn, fs := range d.fields {
+			refStructFields[tn] = map[string]bool{}
+			for _, f := range fs {
+				refStructFields[tn][f[0]] = true
+			}
+		}
+	}
 	P, err := loadProg(analysed, "")
 	if err != nil && norm != nil {
 		normNote = "the normalised copy does not load (" + err.Error() + "): the tree is analysed as it is."
